@@ -578,11 +578,20 @@ class Workspace(AbstractContextManager):
         else:
             self._root = self.create_entity(RootGroup, save_on_creation=False)
 
+            linked: set = set()
+            for entity_type in ["group", "object"]:
+                for uid in self._io_call(H5Reader.fetch_uuids, entity_type, mode="r"):
+                    linked.update(
+                        self._io_call(
+                            H5Reader.fetch_children, uid, entity_type, mode="r"
+                        )
+                    )
+
             for entity_type in ["group", "object"]:
                 uuids = self._io_call(H5Reader.fetch_uuids, entity_type, mode="r")
 
                 for uid in uuids:
-                    if isinstance(self.get_entity(uid)[0], Entity):
+                    if uid in linked or isinstance(self.get_entity(uid)[0], Entity):
                         continue
 
                     recovered_object = self.load_entity(uid, entity_type)
